@@ -136,7 +136,7 @@ func main() {
 }
 
 func c17(c *Ctx) {
-	c.Rule = "packets built by an independent table-19 builder over every data type 0..15 x sub-package mark x M x PT x payload lengths, every truncation length of each, concatenations, and arbitrary byte strings; a case is non-trivial when it is at least 16 bytes long and starts with the marker (reaches field extraction); distinct = distinct request bytes"
+	c.Rule = "packets built by an independent table-19 builder over every data type 0..15 x sub-package mark x M x PT x payload lengths, every truncation length of each, concatenations (16 x 16 ordered pairs of data types, each stream also decoded on ONE reused Packet: op jt1078reuse), declared lengths 65505..65535 complete and cut, and arbitrary byte strings; a case is non-trivial when it is at least 16 bytes long and starts with the marker (reaches field extraction); distinct = distinct request bytes"
 	rng := c.Rng
 	randSpec := func(dt uint8, blen int) rtpSpec {
 		s := rtpSpec{V: uint8(rng.Intn(4)), P: uint8(rng.Intn(2)), X: uint8(rng.Intn(2)), CC: uint8(rng.Intn(16)),
